@@ -218,6 +218,12 @@ Theorem roundtrip_computation_def_ordered_graph : forall nan variable constraint
   let cd := comp_def (ordered_node variable constraints name links) algo in wire nan cd = Ok cd.
 Proof. exact roundtrip_computation_def_ordered_graph_l. Qed.
 
+(* two keys with the same JSON rendering (0 and "0"): one entry is lost (last value wins) *)
+Theorem colliding_keys_refuted :
+  let v := PDict [(PInt 0, PTuple []); (PStr "0", PInt 7); (PStr "a", PInt 1)] in
+  wf true v = false /\ wire true v = Ok (PDict [(PStr "0", PInt 7); (PStr "a", PInt 1)]).
+Proof. exact colliding_keys_refuted_l. Qed.
+
 (* non-vacuity of the deepened statements: a DPOP computation definition as deployed (variable with an
    int domain held in a tuple, a matrix constraint, pseudo-tree links, AlgorithmDef with params), a
    MaxSumMessage, an offering Mgm2OfferMessage, a VariableWithCostDict with int keys and an AgentDef
